@@ -36,6 +36,15 @@ def run(check):
         depth_rule(c, model(), 'C02.R5', fold_rule='C02.R5')
     check.run_rule('C02.R5', r5)
 
+    # _embed fits the inner signature to the forwarded stars with the pairwise merger (`_Merger(inner, stars)`): the soundness
+    # and exactness columns of its tables are part of "the surplus arguments outer forwards are accepted by inner" /
+    # "the result accepts exactly those calls" (shared with C01.R2/R3 and C09.R1)
+    from ._shared import Models
+    from .. import rules_merge as rm
+    M = Models(check)
+    check.run_rule('C02.R7', lambda c: rm.rule_tables(c, M.merge(), 'C02.R7', ('sound', 'exact'), 'the merge step inside embed conforms to tables B2-B4'))
+    check.run_rule('C02.R7b', lambda c: rm.rule_kwo_and_stars(c, M.merge(), 'C02.R7', ('sound', 'exact')))
+
 
 def depth_rule(c, model, rule, fold_rule=None):
     """embed() folds over all inputs and passes the 1-based index as depth"""
